@@ -666,3 +666,21 @@ package signal
 //@   ensures[frame: C10 C15] sameExcept(b, 0, cap(b.data)) && hdrSameExcept(b) && ptr(b.data) == old(ptr(b.data))
 //@   ensures[no-alloc: C18] allocs == old(allocs)
 //@   modifies H(b) hdr(b) pool
+
+// ---------------------------------------------------------------------------
+// Frequency (standard model of binary64: rnd is correctly rounded, see /verif/DESIGN.md §3.3)
+// ---------------------------------------------------------------------------
+
+//@ func Frequency.Duration(f, events)
+//@   props C17
+//@   mode realfloat
+//@   pure
+//@   requires f * 1048576.0 >= 1.0 && f <= 1099511627776.0 && 0 <= events && events <= pow2(53)
+//@   requires 1000000000.0 * real(events) <= f * 4000000000000000000.0
+
+//@ func Frequency.Events(f, d)
+//@   props C17
+//@   mode realfloat
+//@   pure
+//@   requires f * 1048576.0 >= 1.0 && f <= 1099511627776.0 && 0 <= d && d <= pow2(53)
+//@   requires f * real(d) <= 4000000000000000000000000000.0
